@@ -57,7 +57,13 @@ class C17(Prop):
             b = None
         elif r < 0.1:
             a = b = None
+        if a is not None and b is not None and index % 10 == 3:
+            b = copy.deepcopy(a)                # a configuration merged into itself (C17_idempotent)
+        elif a is not None and b is not None and index % 10 == 6:
+            a = spec_merge(a, b)                # the same overrides applied a second time (C17_absorb)
         case = {"kind": "merge", "a": None if a is None else to_cfg(a), "b": None if b is None else to_cfg(b)}
+        if index % 10 in (3, 6) and a is not None and b is not None:
+            case["law"] = "idempotent" if index % 10 == 3 else "absorb"
         if index % 7 in (0, 1):
             case["sub"] = ("overrides", "original")[index % 7]
         if share and a is not None and b is not None:
@@ -135,6 +141,10 @@ class C17(Prop):
             fails.append("merge_config modified one of its arguments")
         if not impl["fresh"] or not impl["is_dict"]:
             fails.append("merge_config did not return a new dict")
+        if case.get("law") == "idempotent" and impl["out"] != case["a"]:
+            fails.append("a configuration merged into itself is not itself")
+        if case.get("law") == "absorb" and impl["out"] != case["a"]:
+            fails.append("applying the same overrides a second time changed the result")
         if impl.get("again_ok") is False:
             fails.append("after the caller had modified the dict it was given, a second call on equal arguments did not return "
                          "the documented merge: results of different calls share state")
@@ -161,6 +171,8 @@ class C17(Prop):
             f.append("collision_dict_dict" if da and db else "collision_dict_scalar" if da else
                      "collision_scalar_dict" if db else "collision_scalar_scalar")
         f.append(f"depth_{max(depth_of(from_cfg(case['a'])), depth_of(from_cfg(case['b'])))}")
+        if case.get("law"):
+            f.append("law_" + case["law"])
         if any("." in k for k in list(a) + list(b)):
             f.append("dotted_key")
         if case.get("share"):
@@ -172,7 +184,8 @@ class C17(Prop):
             c = case[side]
             if c is None:
                 continue
-            yield from ({**case, side: s} for s in _shrink_cfg(c))
+            # (a smaller side is no longer an instance of the law the case was generated for)
+            yield from ({**{k: v for k, v in case.items() if k != "law"}, side: s} for s in _shrink_cfg(c))
 
 
 def _dict_ids(x: Any) -> set[int]:
